@@ -55,7 +55,12 @@ CONSTANTS Msts,       \* measurement names
           Mults,      \* multiplicities a series may have (number of concrete series it stands for)
           RowCap,     \* ids per tag->ids row (mergeindex.MaxTSIDsPerRow)
           XVals,      \* values of the extra tag mentioned by predicates (-1 = the empty string)
-          Dev         \* deviations; {} = the design
+          Dev,        \* deviations; {} = the design
+          OpenClasses \* deviation classes (of S L E N C) whose finding is still OPEN in known_findings.json: the
+                      \* as-implemented behaviour the replay may attribute a divergence to. props/c10.py derives the
+                      \* set from known_findings.json and writes it into the cfg it hands to TLC. A class outside it is
+                      \* a REPAIRED defect: still a mutation seed (SeriesIndex.dev.<class>.cfg), still predicted, but
+                      \* as a REGRESSION (Regressions below), which the replay reports as a violation.
 
 VARIABLES open, key2id, id2key, tag2ids, pending, cache, nextId, nReopen, hist,
           mult,       \* id -> multiplicity of the series
@@ -348,13 +353,30 @@ ClassStr(S) == LET f[i \in 0..Len(ClassOrder)] ==
                      IF i = 0 THEN "" ELSE f[i-1] \o (IF ClassOrder[i] \in S THEN ClassOrder[i] ELSE "")
                IN f[Len(ClassOrder)]
 
-\* predictions of the as-implemented models: one entry per non-empty subset of the classes present
-\* whose result differs from the design's
+AllClasses == {"C", "E", "L", "N", "S"}
+ASSUME OpenClasses \subseteq AllClasses
+
+PredEntry(d, path, m, p) == [d |-> ClassStr(d), ids |-> FullIds(Search(d, path, m, p)),
+                             part |-> PartOf(Search(d, path, m, p))]
+
+\* predictions of the as-implemented models of the OPEN findings: one entry per non-empty subset of the OPEN classes
+\* present whose result differs from the design's. Classes of repaired findings are not predicted here: a result
+\* that a repaired class would explain as well must not be excused by it.
 Predictions(path, m, p) ==
-  LET cs   == LeafClasses(p, path)
+  LET cs   == LeafClasses(p, path) \cap OpenClasses
       want == Search({}, path, m, p)
       subs == {d \in SUBSET cs : d # {} /\ Search(d, path, m, p) # want}
-  IN SetToSeq({[d |-> ClassStr(d), ids |-> FullIds(Search(d, path, m, p)),
+  IN SetToSeq({PredEntry(d, path, m, p) : d \in subs})
+
+\* what the code would answer if the repair of a class were lost (alone or together with others, on top of any
+\* of the open classes): one entry per subset of the classes present that holds a REPAIRED class and whose result
+\* is neither the design's nor a prediction of the open classes alone. A real result equal to one of them is a
+\* regression of the repaired findings named by r = the repaired classes of d.
+Regressions(path, m, p) ==
+  LET cs   == LeafClasses(p, path)
+      opn  == {Search(d, path, m, p) : d \in SUBSET (cs \cap OpenClasses)}      \* includes the design's set
+      subs == {d \in SUBSET cs : d \ OpenClasses # {} /\ Search(d, path, m, p) \notin opn}
+  IN SetToSeq({[d |-> ClassStr(d), r |-> ClassStr(d \ OpenClasses), ids |-> FullIds(Search(d, path, m, p)),
                 part |-> PartOf(Search(d, path, m, p))] : d \in subs})
 
 -----------------------------------------------------------------------------
@@ -455,12 +477,14 @@ LeavesOfPred(p) ==
     [] OTHER -> {p}
 OneLeaf(m, l) ==
   LET want == Search(Dev, "sel", m, l)
-  IN [p |-> l, ids |-> FullIds(want), part |-> PartOf(want), dsel |-> Predictions("sel", m, l)]
+  IN [p |-> l, ids |-> FullIds(want), part |-> PartOf(want), dsel |-> Predictions("sel", m, l),
+      rsel |-> Regressions("sel", m, l)]
 OneSearch(q) ==
   LET want == Search(Dev, "show", q.m, q.p)
   IN [m |-> q.m, p |-> q.p, ids |-> FullIds(want), part |-> PartOf(want),
       tk |-> TagKeysOf(want), tv |-> [x \in TKeys |-> TagValuesOf(want, x)], tvn |-> XValuesOf(want),
       dshow |-> Predictions("show", q.m, q.p), dsel |-> Predictions("sel", q.m, q.p),
+      rshow |-> Regressions("show", q.m, q.p), rsel |-> Regressions("sel", q.m, q.p),
       lv |-> IF q.p[1] \in {"AND", "OR", "P"} THEN SetToSeq({OneLeaf(q.m, l) : l \in LeavesOfPred(q.p)}) ELSE <<>>]
 
 \* what the pooled searcher carries after having served p (SELECT path). The design (tagFilter.Init) clears
